@@ -289,12 +289,14 @@ package fzf
 //@ mathint int32 -- character offsets within one input line are assumed to fit in 31 bits
 //@ ensures len(result) == len(tokens) && fresh(result)
 //@ ensures forall(k, 0, len(result), result[k].prefixLength == begin + psum(tokens, k) && result[k].text != nil)
+//@ ensures forall(k, 0, len(result), fresh(result[k].text))
 //@ ensures forall(k, 0, len(result), clen(result[k].text) == rcount(bytesOf(tokens[k])))
 //@ ensures len(result) > 0 ==> result[0].prefixLength == begin
 //@ ensures forall(k, 1, len(result), result[k].prefixLength == result[k-1].prefixLength + clen(result[k-1].text))
 //@ loop 1
 //@   invariant len(ret) == len(tokens) && fresh(ret) && prefixLength == begin + psum(tokens, iter)
 //@   invariant forall(k, 0, iter, ret[k].prefixLength == begin + psum(tokens, k) && ret[k].text != nil)
+//@   invariant forall(k, 0, iter, fresh(ret[k].text))
 //@   invariant forall(k, 0, iter, clen(ret[k].text) == rcount(bytesOf(tokens[k])))
 //@   invariant iter > 0 ==> ret[0].prefixLength == begin && prefixLength == ret[iter-1].prefixLength + clen(ret[iter-1].text)
 //@   invariant forall(k, 1, iter, ret[k].prefixLength == ret[k-1].prefixLength + clen(ret[k-1].text))
@@ -305,6 +307,7 @@ package fzf
 //@ property C10
 //@ requires len(text) < 2147483648
 //@ ensures forall(k, 0, len(result), result[k].text != nil)
+//@ ensures forall(k, 0, len(result), fresh(result[k].text))
 //@ ensures forall(k, 1, len(result), result[k].prefixLength == result[k-1].prefixLength + clen(result[k-1].text))
 //@ ensures len(result) > 0 ==> result[0].prefixLength == ((delimiter.str == nil && delimiter.regex == nil) ? blanks(text, 0) : 0)
 //@ loop 1
@@ -655,3 +658,42 @@ package fzf
 //@   invariant fresh(output) && len(output) <= iter && cap(output) >= len(input)
 //@ func sizeSpec.String
 //@ property C17
+
+// ---------------------------------------------------------------- what filter mode prints (C07, C01)
+// AsString is the text fzf prints for an item: the original line when the display text was transformed
+// (--with-nth), otherwise the item's own text.  Used here as a pure function of the item and the --ansi flag.
+// (extractColor itself - the --ansi stripper - is not under contract yet: see C11 in DESIGN.md)
+//@ func extractColor trusted
+//@ func Item.AsString
+//@ property C07
+//@ pure
+//@ requires item != nil
+//@ ensures item.origText != nil && !stripAnsi ==> content_eq(bytesOf(result), *item.origText)
+
+// Streaming filter mode (fzf -f QUERY without sorting): for every record read, the line is printed iff the
+// item satisfies the query, and what is printed is Item.AsString - the original line - not the display text.
+//@ func Run closure @"if chunkList.trans(&item, runes)"
+//@ property C07 C01
+//@ requires chunkList != nil && pattern != nil && opts != nil && chunkList.trans != nil && opts.Printer != nil
+//@ requires len(pattern.nth) == 0 && pattern.procFun != nil && (pattern.fuzzy ==> pattern.fuzzyAlgo != nil)
+//@ modifies found
+//@ effect call trans requires true modifies arg0
+//@ effect call Printer requires hit(pattern, &item, false) && arg0 == Item.AsString_r0(&item, opts.Ansi)
+
+// The item builder used with --with-nth: the display text is the transformed line, and the item keeps the
+// record it was built from - the very slice handed over by the reader - as origText; items are numbered in
+// the order they are accepted.
+//@ func Run closure @"item.origText = &data"
+//@ property C07 C06
+//@ requires item != nil && opts != nil && opts.Theme != nil && eventBox != nil && nthTransformer != nil && ansiProcessor != nil && len(data) < 2147483648
+//@ requires itemIndex < 2147483647 -- fewer than 2^31 items
+//@ modifies *item, header, header[len(header):cap(header)], itemIndex
+//@ effect call nthTransformer requires true
+//@ effect call ansiProcessor requires true assumes len(r0.slice) < 2147483648 && (r0.inBytes ? forall(k, 0, len(r0.slice), r0.slice[k] < 128) : forall(k, 0, len(r0.slice), 0 <= asRunes(r0.slice)[k] && asRunes(r0.slice)[k] <= 1114111))
+//@ loop 1
+//@   invariant forall(k, 0, len(tokens), tokens[k].text != nil && fresh(tokens[k].text))
+//@   invariant itemIndex == old(itemIndex) && header == old(header) && data.arr == old(data.arr) && data.off == old(data.off) && len(data) == old(len(data))
+//@ ensures result ==> item.origText != nil && (*item.origText).arr == old(data.arr) && (*item.origText).off == old(data.off) && len(*item.origText) == old(len(data))
+//@ ensures result ==> item.text.Index == old(itemIndex) && itemIndex == old(itemIndex) + 1
+//@ ensures !result ==> itemIndex == old(itemIndex)
+//@ func ansiState.ToString trusted
